@@ -100,6 +100,7 @@ func verifGen() verifLayout {
 	style, ind, cind := verifParam("style"), verifParam("ind"), verifParam("cind")
 	n1, n2, cmt := verifParam("n1"), verifParam("n2"), verifParam("cmt")
 	brk, pre, post := verifParam("brk"), verifParam("pre"), verifParam("post")
+	tagged := verifParam("tagged") // 1: the scalar carries an explicit `!!str` tag (yaml.v3 then adds TaggedStyle to its Style)
 	var L verifLayout
 	pad := verifSpaces(ind)
 	cpad := verifSpaces(ind + cind)
@@ -111,6 +112,11 @@ func verifGen() verifLayout {
 	L.keyCol = ind + 1
 	L.shallow = cind < 2
 	L.style = []yaml.Style{0, yaml.SingleQuotedStyle, yaml.DoubleQuotedStyle, 0, yaml.LiteralStyle, yaml.LiteralStyle, yaml.LiteralStyle, yaml.FoldedStyle, yaml.FoldedStyle}[style]
+	tagText := ""
+	if tagged == 1 {
+		tagText = "!!str "
+		L.style |= yaml.TaggedStyle
+	}
 	quoted := style == 1 || style == 2
 	block := style >= 4
 	multi := style == 3 || (block && n2 > 0)
@@ -161,9 +167,9 @@ func verifGen() verifLayout {
 		if style != 3 {
 			tail += comment
 		}
-		ln := add(first + q + c1 + tail)
+		ln := add(first + tagText + q + c1 + tail)
 		L.line, L.col = ln, startCol
-		put(ln, startCol+len(q), c1)
+		put(ln, startCol+len(tagText)+len(q), c1)
 		if style == 3 {
 			brkAt(ln, " ")
 			ln2 := add(cpad + c2 + comment)
@@ -172,7 +178,7 @@ func verifGen() verifLayout {
 		L.content = len(L.value)
 	default:
 		head := []string{"|", "|-", "|+", ">", ">-"}[style-4]
-		ln := add(pad + verifKey + ": " + head + comment)
+		ln := add(pad + verifKey + ": " + tagText + head + comment)
 		L.line, L.col = ln, ind+len(verifKey)+3
 		// known mis-position: the matcher starts on the header line at the indicator; a header byte equal to the
 		// first value byte is taken for it
